@@ -738,7 +738,7 @@ Fixpoint oaat_end (cur : option N) (log : list wire) : option (option N) :=
       | WBody e | WEmptyBody e =>
           match cur with Some e' => if e =? e' then oaat_end None l else None | None => None end
       | WRset => oaat_end None l
-      | WResult e _ | WRequeue e =>
+      | WResult e _ | WResultRcpts e | WRequeue e =>
           match cur with Some e' => if e =? e' then oaat_end cur l else None | None => oaat_end cur l end
       | WConnect | WHandshake | WQuit | WClose => oaat_end cur l
       end
@@ -765,7 +765,7 @@ Fixpoint raf_end (dirty : bool) (log : list wire) : option bool :=
   | [] => Some dirty
   | w :: l =>
       match w with
-      | WResult _ false => raf_end true l
+      | WResult _ false | WResultRcpts _ => raf_end true l
       | WRset => raf_end false l
       | WMail _ => if dirty then None else raf_end dirty l
       | _ => raf_end dirty l
@@ -813,48 +813,152 @@ Qed.
 Lemma map_rcpt_only : forall e (l : list srv), only_rcpt e (map (fun _ => WRcpt e) l).
 Proof. intros e l. induction l; cbn; constructor; [reflexivity | assumption]. Qed.
 
-Definition keeps_alive (d : dres) : Prop := match d with DOk | DRejected true => True | _ => False end.
 
 (* one delivery, started with no transaction open: ends with no transaction open or, when the
    connection is lost, possibly inside its own transaction *)
-Lemma deliver_oaat : forall pipe e sc,
-    match oaat_end None (fst (deliver pipe e sc)) with
-    | Some c' => (c' = None \/ c' = Some e) /\ (snd (deliver pipe e sc) <> DLost -> c' = None)
-    | None => False
-    end.
+Definition oaat_ok (e : N) (p : list wire * dres) : Prop :=
+  match oaat_end None (fst p) with
+  | Some c' => (c' = None \/ c' = Some e) /\ (snd p <> DLost -> c' = None)
+  | None => False
+  end.
+
+Lemma set_failure_oaat : forall e mx c l, c = None \/ c = Some e ->
+    oaat_end c (set_failure e mx :: l) = oaat_end c l.
 Proof.
-  intros pipe e [pre enc mail rc data body rset].
-  unfold deliver, after_data, empty_data, failed.
-  cbn [ms_pre ms_enc ms_mail ms_rcpts ms_data ms_body ms_rset].
-  pose proof (oaat_end_rcpts e _ (send_rcpts_only e rc)) as Hs.
-  pose proof (oaat_end_rcpts e _ (map_rcpt_only e rc)) as Hm.
-  destruct (send_rcpts e rc) as [wr alive]. cbn [fst] in Hs.
-  set (mr := map (fun _ : srv => WRcpt e) rc) in *. clearbody mr.
-  destruct (existsb is_drop rc), (forallb is_rej rc);
-  destruct enc, pipe, mail, data, body, alive, rc as [|x rc'];
-    cbn [negb is_drop is_rej orb andb fst snd app oaat_end];
-    repeat (rewrite ?oaat_end_app, ?Hs, ?Hm, ?N.eqb_refl; cbn [oaat_end app fst snd]);
-    (split; [auto | intros H; try reflexivity; try (exfalso; apply H; reflexivity)]).
+  intros e mx c l [-> | ->]; destruct mx; cbn [set_failure oaat_end]; rewrite ?N.eqb_refl; reflexivity.
 Qed.
 
-Lemma deliver_raf : forall pipe e sc,
-    match raf_end false (fst (deliver pipe e sc)) with
-    | Some d' => snd (deliver pipe e sc) <> DLost -> d' = false
-    | None => False
-    end.
+Lemma failed_oaat : forall e sc mx pre c,
+    oaat_end None pre = Some c -> c = None \/ c = Some e -> oaat_ok e (failed e sc mx pre).
 Proof.
-  intros pipe e [pre enc mail rc data body rset].
-  unfold deliver, after_data, empty_data, failed.
-  cbn [ms_pre ms_enc ms_mail ms_rcpts ms_data ms_body ms_rset].
-  pose proof (fun d => raf_end_rcpts e _ d (send_rcpts_only e rc)) as Hs.
-  pose proof (fun d => raf_end_rcpts e _ d (map_rcpt_only e rc)) as Hm.
-  destruct (send_rcpts e rc) as [wr alive]. cbn [fst] in Hs.
-  set (mr := map (fun _ : srv => WRcpt e) rc) in *. clearbody mr.
-  destruct (existsb is_drop rc), (forallb is_rej rc);
-  destruct enc, pipe, mail, data, body, alive, rc as [|x rc'];
-    cbn [negb is_drop is_rej orb andb fst snd app raf_end];
-    repeat (rewrite ?raf_end_app, ?Hs, ?Hm; cbn [raf_end app fst snd]);
-    (intros H; try reflexivity; try (exfalso; apply H; reflexivity)).
+  intros e sc mx pre c Hp Hc. unfold oaat_ok, failed. cbn [fst snd].
+  rewrite oaat_end_app, Hp, (set_failure_oaat e mx c _ Hc). cbn [oaat_end].
+  split; [left; reflexivity | reflexivity].
+Qed.
+
+Lemma empty_data_oaat : forall pipe e sc mx pre,
+    oaat_end None pre = Some (Some e) -> oaat_ok e (empty_data pipe e sc mx pre).
+Proof.
+  intros pipe e sc mx pre Hp. unfold empty_data. destruct pipe.
+  - unfold oaat_ok. cbn [fst snd]. rewrite oaat_end_app, Hp, (set_failure_oaat e mx (Some e)) by (right; reflexivity).
+    cbn [oaat_end]. rewrite N.eqb_refl. split; [left; reflexivity | reflexivity].
+  - assert (Hp2 : oaat_end None (pre ++ [WEmptyBody e]) = Some None).
+    { rewrite oaat_end_app, Hp. cbn [oaat_end]. rewrite N.eqb_refl. reflexivity. }
+    destruct (ms_body sc); try (eapply failed_oaat; [exact Hp2 | left; reflexivity]).
+    unfold oaat_ok. cbn [fst snd]. rewrite Hp2. split; [left; reflexivity | reflexivity].
+Qed.
+
+Lemma after_data_oaat : forall pipe e sc mail_rej pre,
+    oaat_end None pre = Some (Some e) -> oaat_ok e (after_data pipe e sc mail_rej pre).
+Proof.
+  intros pipe e sc mail_rej pre Hp. unfold after_data.
+  assert (Hlost : oaat_ok e (pre, DLost)).
+  { unfold oaat_ok. cbn [fst snd]. rewrite Hp. split; [right; reflexivity | intros H; exfalso; apply H; reflexivity]. }
+  assert (Hbody : oaat_end None (pre ++ [WBody e]) = Some None).
+  { rewrite oaat_end_app, Hp. cbn [oaat_end]. rewrite N.eqb_refl. reflexivity. }
+  destruct (ms_rcpts sc) as [|x rc].
+  - destruct mail_rej; [|exact Hlost].
+    destruct (ms_data sc); try (eapply failed_oaat; [exact Hp | right; reflexivity]).
+    apply empty_data_oaat. exact Hp.
+  - destruct (mail_rej || forallb is_rej (x :: rc) || is_rej (ms_data sc)).
+    + destruct (ms_data sc); try (eapply failed_oaat; [exact Hp | right; reflexivity]).
+      apply empty_data_oaat. exact Hp.
+    + destruct (ms_body sc); try (eapply failed_oaat; [exact Hbody | left; reflexivity]).
+      * unfold oaat_ok. cbn [fst snd]. rewrite <- (app_nil_r [WBody e; WResult e true]).
+        change [WBody e; WResult e true] with ([WBody e] ++ [WResult e true]).
+        rewrite app_nil_r, app_assoc, oaat_end_app, Hbody. cbn [oaat_end].
+        split; [left; reflexivity | reflexivity].
+      * unfold oaat_ok. cbn [fst snd]. rewrite Hbody. split; [left; reflexivity | reflexivity].
+Qed.
+
+Lemma deliver_oaat : forall pipe e sc, oaat_ok e (deliver pipe e sc).
+Proof.
+  intros pipe e sc. unfold deliver.
+  destruct (negb (ms_enc sc)); [eapply failed_oaat; [reflexivity | left; reflexivity]|].
+  destruct pipe.
+  - assert (Hp : oaat_end None (WMail e :: map (fun _ : srv => WRcpt e) (ms_rcpts sc) ++ [WData e]) = Some (Some e)).
+    { cbn [oaat_end]. rewrite oaat_end_app, (oaat_end_rcpts e _ (map_rcpt_only e (ms_rcpts sc))).
+      cbn [oaat_end]. rewrite N.eqb_refl. reflexivity. }
+    destruct (is_drop (ms_mail sc) || existsb is_drop (ms_rcpts sc) || is_drop (ms_data sc)).
+    + unfold oaat_ok. cbn [fst snd]. rewrite Hp. split; [right; reflexivity | intros H; exfalso; apply H; reflexivity].
+    + apply after_data_oaat. exact Hp.
+  - assert (Hm : oaat_end None [WMail e] = Some (Some e)) by reflexivity.
+    destruct (ms_mail sc); try (eapply failed_oaat; [exact Hm | right; reflexivity]).
+    + pose proof (oaat_end_rcpts e _ (send_rcpts_only e (ms_rcpts sc))) as Hs.
+      destruct (send_rcpts e (ms_rcpts sc)) as [wr alive]. cbn [fst] in Hs.
+      assert (Hw : oaat_end None (WMail e :: wr) = Some (Some e)) by (cbn [oaat_end]; exact Hs).
+      assert (Hd : oaat_end None (WMail e :: wr ++ [WData e]) = Some (Some e)).
+      { cbn [oaat_end]. rewrite oaat_end_app, Hs. cbn [oaat_end]. rewrite N.eqb_refl. reflexivity. }
+      destruct alive; cbn [negb].
+      * destruct (ms_data sc); try (apply after_data_oaat; exact Hd).
+        unfold oaat_ok. cbn [fst snd]. rewrite Hd. split; [right; reflexivity | intros H; exfalso; apply H; reflexivity].
+      * unfold oaat_ok. cbn [fst snd]. rewrite Hw. split; [right; reflexivity | intros H; exfalso; apply H; reflexivity].
+    + unfold oaat_ok. cbn [fst snd]. rewrite Hm. split; [right; reflexivity | intros H; exfalso; apply H; reflexivity].
+Qed.
+
+(* ... and ends clean (no failed transaction waiting for its RSET) unless the connection is lost *)
+Definition raf_ok (p : list wire * dres) : Prop :=
+  match raf_end false (fst p) with
+  | Some d' => snd p <> DLost -> d' = false
+  | None => False
+  end.
+
+Lemma failed_raf : forall e sc mx pre b,
+    raf_end false pre = Some b -> raf_ok (failed e sc mx pre).
+Proof.
+  intros e sc mx pre b Hp. unfold raf_ok, failed. cbn [fst snd]. rewrite raf_end_app, Hp.
+  destruct mx; cbn [set_failure raf_end]; reflexivity.
+Qed.
+
+Lemma empty_data_raf : forall pipe e sc mx pre b,
+    raf_end false pre = Some b -> raf_ok (empty_data pipe e sc mx pre).
+Proof.
+  intros pipe e sc mx pre b Hp. unfold empty_data. destruct pipe.
+  - unfold raf_ok. cbn [fst snd]. rewrite raf_end_app, Hp. destruct mx; cbn [set_failure raf_end]; reflexivity.
+  - assert (Hp2 : raf_end false (pre ++ [WEmptyBody e]) = Some b) by (rewrite raf_end_app, Hp; reflexivity).
+    destruct (ms_body sc); try (eapply failed_raf; exact Hp2).
+    unfold raf_ok. cbn [fst snd]. rewrite Hp2. intros H; exfalso; apply H; reflexivity.
+Qed.
+
+Lemma after_data_raf : forall pipe e sc mail_rej pre,
+    raf_end false pre = Some false -> raf_ok (after_data pipe e sc mail_rej pre).
+Proof.
+  intros pipe e sc mail_rej pre Hp. unfold after_data.
+  assert (Hlost : forall l, raf_end false l <> None -> raf_ok (l, DLost)).
+  { intros l Hl. unfold raf_ok. cbn [fst snd]. destruct (raf_end false l); [intros H; exfalso; apply H; reflexivity | apply Hl; reflexivity]. }
+  assert (Hbody : raf_end false (pre ++ [WBody e]) = Some false) by (rewrite raf_end_app, Hp; reflexivity).
+  destruct (ms_rcpts sc) as [|x rc].
+  - destruct mail_rej; [|apply Hlost; rewrite Hp; discriminate].
+    destruct (ms_data sc); try (eapply failed_raf; exact Hp). eapply empty_data_raf; exact Hp.
+  - destruct (mail_rej || forallb is_rej (x :: rc) || is_rej (ms_data sc)).
+    + destruct (ms_data sc); try (eapply failed_raf; exact Hp). eapply empty_data_raf; exact Hp.
+    + destruct (ms_body sc); try (eapply failed_raf; exact Hbody).
+      * unfold raf_ok. cbn [fst snd].
+        change [WBody e; WResult e true] with ([WBody e] ++ [WResult e true]).
+        rewrite app_assoc, raf_end_app, Hbody. cbn [raf_end]. reflexivity.
+      * apply Hlost. rewrite Hbody. discriminate.
+Qed.
+
+Lemma deliver_raf : forall pipe e sc, raf_ok (deliver pipe e sc).
+Proof.
+  intros pipe e sc. unfold deliver.
+  assert (Hlost : forall l, raf_end false l = Some false -> raf_ok (l, DLost)).
+  { intros l Hl. unfold raf_ok. cbn [fst snd]. rewrite Hl. intros H; exfalso; apply H; reflexivity. }
+  destruct (negb (ms_enc sc)); [eapply failed_raf; reflexivity|].
+  destruct pipe.
+  - assert (Hp : raf_end false (WMail e :: map (fun _ : srv => WRcpt e) (ms_rcpts sc) ++ [WData e]) = Some false).
+    { cbn [raf_end]. rewrite raf_end_app, (raf_end_rcpts e _ false (map_rcpt_only e (ms_rcpts sc))). reflexivity. }
+    destruct (is_drop (ms_mail sc) || existsb is_drop (ms_rcpts sc) || is_drop (ms_data sc));
+      [apply Hlost; exact Hp | apply after_data_raf; exact Hp].
+  - assert (Hm : raf_end false [WMail e] = Some false) by reflexivity.
+    destruct (ms_mail sc); try (eapply failed_raf; exact Hm); [|apply Hlost; exact Hm].
+    pose proof (raf_end_rcpts e _ false (send_rcpts_only e (ms_rcpts sc))) as Hs.
+    destruct (send_rcpts e (ms_rcpts sc)) as [wr alive]. cbn [fst] in Hs.
+    assert (Hw : raf_end false (WMail e :: wr) = Some false) by (cbn [raf_end]; exact Hs).
+    assert (Hd : raf_end false (WMail e :: wr ++ [WData e]) = Some false).
+    { cbn [raf_end]. rewrite raf_end_app, Hs. reflexivity. }
+    destruct alive; cbn [negb]; [|apply Hlost; exact Hw].
+    destruct (ms_data sc); try (apply after_data_raf; exact Hd). apply Hlost; exact Hd.
 Qed.
 
 Lemma smtp_loop_eq : forall pipe reuse rest r sc,
@@ -875,8 +979,8 @@ Lemma smtp_loop_eq : forall pipe reuse rest r sc,
         else (w, [ADone r k], true) in
       match d with
       | DOk => continue K_OK
-      | DRejected true => continue K_REJECTED
-      | DRejected false => (w, [ADone r K_REJECTED], true)
+      | DRejected mx true => continue (if mx then K_RCPTS else K_REJECTED)
+      | DRejected mx false => (w, [ADone r (if mx then K_RCPTS else K_REJECTED)], true)
       | DLost => (w ++ [WResult e false], [ADone r K_LOST], true)
       end.
 Proof. intros. destruct rest; reflexivity. Qed.
@@ -890,14 +994,14 @@ Lemma loop_oaat : forall pipe reuse rest r sc,
 Proof.
   intros pipe reuse. induction rest as [|p rest IH]; intros r sc; unfold loop_wire; rewrite smtp_loop_eq;
     cbn zeta; (destruct (ms_pre sc); [cbn; discriminate|]);
-    pose proof (deliver_oaat pipe (r_env r) sc) as D;
+    pose proof (deliver_oaat pipe (r_env r) sc) as D; unfold oaat_ok in D;
     destruct (deliver pipe (r_env r) sc) as [w d]; cbn [fst snd] in D;
     destruct (oaat_end None w) as [c'|] eqn:Ew; try contradiction; destruct D as [D1 D2].
-  - destruct d as [|[|]|]; destruct reuse; cbn [fst snd]; rewrite ?Ew; try discriminate.
+  - destruct d as [|mx [|]|]; destruct reuse; cbn [fst snd]; rewrite ?Ew; try discriminate.
     rewrite oaat_end_app, Ew. destruct D1 as [-> | ->]; cbn; rewrite ?N.eqb_refl; discriminate.
     rewrite oaat_end_app, Ew. destruct D1 as [-> | ->]; cbn; rewrite ?N.eqb_refl; discriminate.
   - assert (Hc : d <> DLost -> c' = None) by exact D2.
-    destruct d as [|[|]|]; destruct reuse; cbn [fst snd]; rewrite ?Ew; try discriminate.
+    destruct d as [|mx [|]|]; destruct reuse; cbn [fst snd]; rewrite ?Ew; try discriminate.
     + destruct p as [[r' sc']|]; [|cbn [fst snd]; rewrite Ew; discriminate].
       specialize (IH r' sc'). unfold loop_wire in IH.
       destruct (smtp_loop pipe true rest r' sc') as [[w' a'] x']. cbn [fst snd] in *.
@@ -915,13 +1019,13 @@ Lemma loop_raf : forall pipe reuse rest r sc,
 Proof.
   intros pipe reuse. induction rest as [|p rest IH]; intros r sc; unfold loop_wire; rewrite smtp_loop_eq;
     cbn zeta; (destruct (ms_pre sc); [cbn; discriminate|]);
-    pose proof (deliver_raf pipe (r_env r) sc) as D;
+    pose proof (deliver_raf pipe (r_env r) sc) as D; unfold raf_ok in D;
     destruct (deliver pipe (r_env r) sc) as [w d]; cbn [fst snd] in D;
     destruct (raf_end false w) as [d'|] eqn:Ew; try contradiction.
-  - destruct d as [|[|]|]; destruct reuse; cbn [fst snd]; rewrite ?Ew; try discriminate.
+  - destruct d as [|mx [|]|]; destruct reuse; cbn [fst snd]; rewrite ?Ew; try discriminate.
     rewrite raf_end_app, Ew. cbn. discriminate.
     rewrite raf_end_app, Ew. cbn. discriminate.
-  - destruct d as [|[|]|]; destruct reuse; cbn [fst snd]; rewrite ?Ew; try discriminate.
+  - destruct d as [|mx [|]|]; destruct reuse; cbn [fst snd]; rewrite ?Ew; try discriminate.
     + destruct p as [[r' sc']|]; [|cbn [fst snd]; rewrite Ew; discriminate].
       specialize (IH r' sc'). unfold loop_wire in IH.
       destruct (smtp_loop pipe true rest r' sc') as [[w' a'] x']. cbn [fst snd] in *.
@@ -945,8 +1049,8 @@ Proof.
     unfold loop_acts, loop_left; rewrite smtp_loop_eq; cbn zeta;
     (destruct (ms_pre sc); [cbn; rewrite req_eqb_refl; reflexivity|]);
     destruct (deliver pipe (r_env r) sc) as [w d].
-  - destruct d as [|[|]|]; destruct reuse; cbn; rewrite req_eqb_refl; reflexivity.
-  - destruct d as [|[|]|]; destruct reuse; cbn [fst snd app follows_contract]; rewrite ?req_eqb_refl; cbn [andb];
+  - destruct d as [|mx [|]|]; destruct reuse; cbn; rewrite req_eqb_refl; reflexivity.
+  - destruct d as [|mx [|]|]; destruct reuse; cbn [fst snd app follows_contract]; rewrite ?req_eqb_refl; cbn [andb];
       try reflexivity.
     + destruct p as [[r' sc']|]; [|cbn; rewrite req_eqb_refl; reflexivity].
       specialize (IH r' sc' tail). unfold loop_acts, loop_left in IH.
@@ -1025,6 +1129,20 @@ Example smtp_reuse_example :
      WMail 11; WRcpt 11; WData 11; WEmptyBody 11; WResult 11 false; WRset;
      WMail 12; WRcpt 12; WData 12; WBody 12; WResult 12 true; WQuit; WClose].
 Proof. vm_compute. reflexivity. Qed.
+
+(* the rcpt_errors branch of _set_failure: every recipient of message 10 rejected, one with 4xx and
+   one with 5xx; the failure is reported per recipient, RSET follows, message 11 uses the same
+   connection.  Without that RSET the checker rejects the log. *)
+Example smtp_mixed_rejection_example :
+  let mixed := mkMs false true SOk [SRej4; SRej] SRej SOk true in
+  let ok := mkMs false true SOk [SOk] SOk SOk true in
+  run_wire false true (mkCs true SOk) [Some (mkReq 0 10, mixed); Some (mkReq 1 11, ok); None]
+  = [WConnect; WHandshake; WMail 10; WRcpt 10; WRcpt 10; WData 10; WResultRcpts 10; WRset;
+     WMail 11; WRcpt 11; WData 11; WBody 11; WResult 11 true; WQuit; WClose]
+  /\ reset_after_failure false
+       [WMail 10; WRcpt 10; WRcpt 10; WData 10; WResultRcpts 10; WMail 11] = false
+  /\ snd (deliver true 10 (mkMs false true SOk [SRej; SRej4; SRej] SOk SOk true)) = DRejected true true.
+Proof. vm_compute. repeat split. Qed.
 
 (* ================================================================== *)
 (* 4. HttpRelayClient                                                 *)
